@@ -15,6 +15,10 @@ TRUST = "Go 1.26.8 runtime and testing/synctest; the check-time rewriter (valida
 CHECKS = {
 "C07": ("stream", "exploration", "Seeded deterministic simulation of the real ttlv.Stream over a simulated transport: message sequences x read segmentations (1-byte, random, coalesced across message boundaries) x data+EOF x truncation offsets x oversize headers, with live sender/receiver tasks under the baton scheduler; plus a complete floor over every truncation offset of small streams under both extreme segmentations. Oracle: messages equal and in order, consumed-byte offset equals each message's end, truncated streams yield errors, oversize headers rejected with <= 8 bytes consumed.", "DESIGN.md §3 C07",
         "deterministic simulation: seeded search over read segmentations/truncations of a simulated transport + enumerated truncation floor"),
+"C10": ("client", "exploration", "Seeded deterministic simulation of one real kmipclient.Client shared by 1-5 caller tasks against a scripted echo server (unique token per request item) with server delays/closes, chunked reads, timeouts on the fake clock and canceller tasks that make cancellation land at any yield of the instrumented client; plus two floors: a context that becomes cancelled at its k-th observation for every k (places a cancellation at every point where the client can notice one) and a single-preemption sweep of fixed two-caller workloads. Oracle: every call that returns a nil error returns exactly the tokens it sent.", "DESIGN.md §3 C10",
+        "deterministic simulation: seeded search over schedules/cancellation instants/server delays + enumerated ctx-observation and single-preemption floors"),
+"C11": ("client", "exploration", "Seeded deterministic simulation of the real client (dial, version negotiation, calls, retry/reconnect, Close) with eof/reset/closed/epipe/short-write/stall faults injected at chosen client-side I/O operation indexes, failing dials and a server that closes or resets around its reply, under concurrent callers and preemptions; plus a complete single-fault floor (every I/O op index 1..12 x 6 kinds x 5 follow-up action lists x negotiation on/off, and server close/reset after the k-th reply seen as EOF or data+EOF) and a single-preemption sweep. Oracles: every call returns; nil-error results carry the caller's own tokens; no panic; recovery in a fault-free suffix (only the first call may fail); at most 4 transmissions per request; calls started after Close returned fail; no client goroutine alive after Close.", "DESIGN.md §3 C11",
+        "deterministic simulation: seeded fault-sequence/schedule search + enumerated single-fault floor over client I/O operation indexes"),
 }
 ENG = {"stream":"sim/harness/stream.go","server":"sim/harness/server*.go","client":"sim/harness/client*.go","codec":"sim/harness/codec.go"}
 def main():
